@@ -50,6 +50,7 @@ func schedUniverses() []schedUniverse {
 }
 
 func runSchedules(r *core.Run) {
+	sched.Stop = r.Expired // soft time budget: explorations end with Complete=false
 	tidyBound, loadBound, budget := 1, 2, 60000
 	if r.Thorough() {
 		tidyBound, loadBound, budget = 2, 3, 1500000
